@@ -13,7 +13,7 @@
    The full statement of the property quantifies over ALL handler programs; it is FALSE of the faithful model outside
    guard: the `_refuted` theorems give the witnesses (findings/C03.txt), and the theorems are proved under
    exactly that guard. *)
-From FH Require Import Model.Base Model.HeaderWrite Spec.HeadLines Proof.HeaderWriteProof Model.RespWrite Spec.RespParse Spec.RespSpec
+From FH Require Import Model.Base Gen.GenC03 Model.HeaderWrite Spec.HeadLines Proof.HeaderWriteProof Model.RespWrite Spec.RespParse Spec.RespSpec
   Proof.RespParseProof Proof.RespWriteProof Proof.RespWriteMain Proof.RespWriteRefute Proof.RespWriteGuard.
 Open Scope N_scope.
 
@@ -59,6 +59,18 @@ Proof.
   exact (exactly_one_response smsg date Hs Hd c q m prog tail wire cl Hwf Hq (guard_of_class c q m prog Hok Hq) Hsm Hsc E).
 Qed.
 Print Assumptions C03_exactly_one_response_class_partial.
+
+(* The statuses for which fasthttp writes neither Content-Length nor body are tied to the source: mscl_ints (Gen/GenC03.v,
+   regenerated on every run) lists the integer constants of ResponseHeader.mustSkipContentLength; the model's function is
+   that list read as "< a or == b: no; == c or == d or < e: yes", and for every status >= 100 this is exactly RFC 9112's
+   body-less set (1xx, 204, 304), the one the independent reader uses.  A status added to or removed from the Go
+   function changes the list and breaks these two theorems and everything proved from them. *)
+Theorem C03_bodyless_statuses_from_source : forall r, mscl_of mscl_ints (RStatusCode r) = Some (mustSkipContentLength r).
+Proof. exact mustSkip_from_source. Qed.
+Print Assumptions C03_bodyless_statuses_from_source.
+Theorem C03_bodyless_statuses_are_rfc : forall r, (100 <= RStatusCode r)%Z -> mustSkipContentLength r = no_body_status (RStatusCode r).
+Proof. exact mustSkip_rfc. Qed.
+Print Assumptions C03_bodyless_statuses_are_rfc.
 
 (* the same at the level of Response.Write, for every consistent Response state (not only reachable ones) *)
 Theorem C03_write_parses : forall smsg date, nc smsg -> nc date ->
